@@ -1,6 +1,7 @@
 package world
 
 import (
+	"io"
 	"bytes"
 	"errors"
 	"fmt"
@@ -166,6 +167,14 @@ func (c *Codec) CheckEncoding(obj interface{}, b []byte) {
 // Unmarshal implements vmcommon.Marshalizer.
 func (c *Codec) Unmarshal(obj interface{}, buff []byte) error {
 	if c.Faults.hit(DepUnmarshal) {
+		// other faces of the same failure: the errors the production codec itself returns for a short
+		// read (a failed decoding is a failed decoding, whatever the error value is)
+		switch c.Faults.Alt {
+		case 1:
+			return io.ErrUnexpectedEOF
+		case 2:
+			return fmt.Errorf("proto: wrong wireType: %w", io.EOF)
+		}
 		return ErrInjected
 	}
 	m, ok := obj.(gogoMsg)
